@@ -135,8 +135,14 @@ def run(ctx):
             nx, cp = nexts[0], caps[0]
             chain, root = call_chain(s, nx.args[0])
             names = [x.name.split("::")[-1] for x in chain]
-            ctx.check([n for n in names if n not in ("into_iter",)] == ["rev", "lines", "index"] and root == ("param", 2), "C14-R3", "iter-chain",
-                      "the iterator is exactly code[..].lines().rev() (chain: %s, root %s)" % (names, root), nx.where())
+            core = [n for n in names if n not in ("into_iter",)]
+            skip1 = False
+            if core[:1] == ["skip"]:
+                sk = [c for c in chain if c.name.split("::")[-1] == "skip"][0]
+                skip1 = (op_const(sk.args[1]) or {}).get("int") == 1
+                core = core[1:] if skip1 else core
+            ctx.check(core == ["rev", "lines", "index"] and root == ("param", 2), "C14-R3", "iter-chain",
+                      "the iterator is exactly code[..].lines().rev() [optionally .skip(1) for the statement's own line] (chain: %s, root %s)" % (names, root), nx.where())
             loop = loop_containing(s, nx.bb)
             # the regex is applied to the trimmed line
             ch, rt = call_chain(s, cp.args[1])
@@ -174,7 +180,7 @@ def run(ctx):
                     clr = [d for d in ds if op_const(d[2]["rv"]["op"]).get("int") == 0][0]
                     if init[0] not in loop and clr[0] in loop:
                         skip_ok = True
-            ctx.check(skip_ok, "C14-R3", "own-line-skip", "the statement's own line (first in reverse order) is skipped once via a first-iteration flag", s.where())
+            ctx.check(skip_ok != skip1, "C14-R3", "own-line-skip", "the statement's own line (first in reverse order) is skipped exactly once (first-iteration flag: %s, .skip(1): %s)" % (skip_ok, skip1), s.where())
             # returns
             trues = [(bb, st) for (bb, st) in return_values(s) if st["rv"]["k"] == "use" and (op_const(st["rv"]["op"]) or {}).get("int") == 1]
             falses = [(bb, st) for (bb, st) in return_values(s) if st["rv"]["k"] == "use" and (op_const(st["rv"]["op"]) or {}).get("int") == 0]
